@@ -36,6 +36,8 @@ def script_of(h):
             ops.append("call %s clear #%d" % (o, s["i"]))
         elif op == "put":
             ops.append("call %s put_into #%d %s #%d" % (o, s["i"], OB[s["p"]], s["j"]))
+        elif op == "putr":
+            ops.append("call %s put_range_into #%d %s #%d #%d" % (o, s["i"], OB[s["p"]], s["j"], s["mode"]))
         elif op == "fp":
             ops.append("call %s newfp #%d #%d" % (o, s["i"], s["j"]))
         elif op == "callout":
